@@ -56,7 +56,7 @@ def parse_contracts(path: str) -> Dict[str, FnContract]:
     text = '\n'.join(buf).rstrip()
     kind, arg = sect
     if kind == 'spec': cur.spec = text
-    elif kind == 'loop': cur.loops[int(arg)] = text
+    elif kind == 'loop': cur.loops[int(arg) if arg.strip().isdigit() else arg.strip()] = text
     elif kind == 'proof': cur.proofs.append((arg, text))
     buf = []; sect = None
 
@@ -480,7 +480,7 @@ def rw_next_if_pred(text: str, fns: List[str], vars: List[str] = ()) -> str:
 
 
 def rw_for_each_index(text: str) -> str:
-  """R13f: `RECV.iter().for_each(|X| { BODY });` (RECV a field path) -> `let mut verif_fK: usize = 0; while verif_fK < RECV.len() { let X = &RECV[verif_fK]; BODY verif_fK += 1; }`
+  """R13f: `RECV.iter().for_each(|X| { BODY });` (RECV a field path) -> `let mut verif_f_F: usize = 0; while verif_f_F < RECV.len() { let X = &RECV[verif_f_F]; BODY verif_f_F += 1; }` (F = last field of RECV)
   (iter() over a Vec visits index 0, 1, .. in order; the closure body is copied unchanged; refused when it contains return / break / continue)"""
   k = 0
   while True:
@@ -497,7 +497,8 @@ def rw_for_each_index(text: str) -> str:
     recv = re.sub(r'\s+', '', m.group(1))
     b = body.rstrip()
     if b and not b.endswith(';') and not b.endswith('}'): b += ';'
-    new = 'let mut verif_f%d: usize = 0;\n      while verif_f%d < %s.len() {\n        let %s = &%s[verif_f%d];%s\n        verif_f%d += 1;\n      }' % (k, k, recv, m.group(2), recv, k, b, k)
+    v = 'verif_f_' + recv.split('.')[-1]
+    new = 'let mut %s: usize = 0;\n      while %s < %s.len() {\n        let %s = &%s[%s];%s\n        %s += 1;\n      }' % (v, v, recv, m.group(2), recv, v, b, v)
     text = text[:m.start()] + new + rest[mm.end():]
     k += 1
 
@@ -886,7 +887,17 @@ def splice_fn(text: str, c: Optional[FnContract], item_path: str) -> List[Tuple[
     ins.append((a.ret_start, 0, 'retname', ty, '(%s: %s)' % (c.ret, ty)))
   if c.spec.strip():
     ins.append((a.body_open, 1, 'contract', 'spec', '\n' + c.spec + '\n'))
-  for k, inv in sorted(c.loops.items()):
+  for k, inv in sorted(c.loops.items(), key=lambda kv: str(kv[0])):
+    if isinstance(k, str):
+      # `@loop over TEXT`: the loop whose header (keyword .. body brace) contains TEXT. When that loop is gone the function is verified without
+      # its invariant: what the loop established is then missing and the postcondition decides (an obligation that held now fails).
+      mm = re.match(r'^over\s+(.*)$', k)
+      if not mm: raise Undecided('%s: bad @loop key %r' % (item_path, k))
+      want = re.sub(r'\s+', '', mm.group(1))
+      hits = [l for l in a.loops if want in re.sub(r'\s+', '', text[l[1]:l[2]])]
+      if len(hits) > 1: raise Undecided('%s: @loop %s matches %d loops' % (item_path, k, len(hits)))
+      if hits: ins.append((hits[0][2], 1, 'contract', 'loop ' + k, '\n' + inv + '\n'))
+      continue
     if k < 1 or k > len(a.loops):
       raise Undecided('%s: @loop %d but function has %d loop(s)' % (item_path, k, len(a.loops)))
     ins.append((a.loops[k - 1][2], 1, 'contract', 'loop %d' % k, '\n' + inv + '\n'))
